@@ -63,8 +63,12 @@ pub fn inst_handle(i: u64) -> InstanceHandle {
 pub fn writer_guid(w: u64) -> Guid {
     Guid::new([w as u8; 12], EntityId::new([0, 0, w as u8], 0x02))
 }
+// one abstract time unit = 400 ms, so that consecutive timestamps cross second boundaries with
+// decreasing nanosecond parts (exercises the borrow in time arithmetic)
+const UNIT_NS: u64 = 400_000_000;
 fn ts_time(ts: u64) -> Time {
-    Time::new(1000 + ts as i32, 0)
+    let ns = ts * UNIT_NS;
+    Time::new(1000 + (ns / 1_000_000_000) as i32, (ns % 1_000_000_000) as u32)
 }
 fn lim(v: i32) -> Length {
     if v == 0 {
@@ -104,7 +108,10 @@ impl CacheModel {
         };
         if cfg.min_sep > 0 {
             qos.time_based_filter.minimum_separation =
-                DurationKind::Finite(Duration::new(cfg.min_sep, 0));
+                {
+                    let ns = cfg.min_sep as u64 * UNIT_NS;
+                    DurationKind::Finite(Duration::new((ns / 1_000_000_000) as i32, (ns % 1_000_000_000) as u32))
+                };
         }
         let guid = Guid::new([9; 12], EntityId::new([0, 0, 9], 0x07));
         let mut r = UserDefinedDataReader::new(
@@ -215,7 +222,7 @@ fn id_of(data: &[u8]) -> u64 {
     }
 }
 fn ts_of(t: Option<Time>) -> i64 {
-    t.map(|t| t.sec() as i64 - 1000).unwrap_or(-1)
+    t.map(|t| (((t.sec() as i64 - 1000) * 1_000_000_000 + t.nanosec() as i64) / UNIT_NS as i64)).unwrap_or(-1)
 }
 fn writer_of(g: &[u8]) -> u64 {
     g[0] as u64
